@@ -419,6 +419,14 @@ public:
       return 0;
     }
 
+    // A non-positive interval re-arms at a time that never passes `now`:
+    // collectDueLocked() would spin forever under _mutex.
+    if (interval <= Duration::zero())
+    {
+      handleError(TimerError::InvalidTimeout, "Periodic interval must be positive", 0);
+      return 0;
+    }
+
     auto deadline = Clock::now() + interval;
 
     if (!isValidTimeout(deadline))
